@@ -7,7 +7,9 @@ V: the extracted verified checker cc_holdsb evaluates every compound constraint 
 ConstrainedFDLayout::makeFeasible()+run() and ConstrainedMajorizationLayout::run() on random graphs, plus the family
 'rollback' (gen_rollback_case): overlap avoidance on and groups of overlapping rectangles tied together by user equalities, so that
 makeFeasible() has to reject and roll back non-overlap alternatives; there every constraint held on the initial positions and must
-still hold afterwards."""
+still hold afterwards; and the family 'single-axis' (gen_single_axis_case): run(true,false) / run(false,true) / run(false,false) with and
+without a preceding makeFeasible() - the constraints of BOTH dimensions must hold (or be reported) afterwards, and the sequence of
+projections the compiled run() performs (observed by a probe compound constraint) must equal the Coq trace model's for the flags."""
 import os, json, math
 from fractions import Fraction
 from vlib import common as C
@@ -18,6 +20,37 @@ GRID = 1 << 20                       # final centres are rounded to multiples of
 SLACK = Fraction(4, GRID)            # so the checker's tolerance is 1e-4 + 4*2^-20 (never stricter than the property)
 CODES = {1: 'Separation', 2: 'Separation(alignment pair)', 3: 'Alignment', 4: 'Boundary', 5: 'Distribution',
          6: 'MultiSeparation', 7: 'FixedRelative', 8: 'PageBoundary'}
+
+
+# ----------------------------------------------------------------------------------------------- layout modes (harness/c07_cc.cpp)
+MODE_NAMES = {0: 'makeFeasible()+run()', 1: 'run()', 2: 'makeFeasible()', 3: 'ConstrainedMajorizationLayout::run()',
+              4: 'run(true,false)', 5: 'run(false,true)', 6: 'makeFeasible()+run(true,false)', 7: 'makeFeasible()+run(false,true)',
+              8: 'run(false,false)', 9: 'makeFeasible()+run(false,false)'}
+
+
+def m_base(m):
+    return m & 15
+
+
+def m_mf(m):
+    return m_base(m) in (0, 2, 6, 7, 9)
+
+
+def m_run(m):                       # ConstrainedFDLayout::run(...) is the last call
+    return m_base(m) in (0, 1, 4, 5, 6, 7, 8, 9)
+
+
+def m_mf_only(m):
+    return m_base(m) == 2
+
+
+def m_axes(m):
+    b = m_base(m)
+    return (b in (0, 1, 4, 6), b in (0, 1, 5, 7))
+
+
+def mode_name(m):
+    return MODE_NAMES.get(m_base(m), '?') + (' [private rungekutta switch off]' if m & 16 else '')
 
 
 # ----------------------------------------------------------------------------------------------- case syntax
@@ -379,6 +412,53 @@ def gen_rollback_case(rng, idx):
             'neighbour': 0, 'stream': 'sat', 'kind': 'rollback', 'tied': tied}
 
 
+def gen_single_axis_case(rng, idx):
+    """family 'single-axis': ConstrainedFDLayout::run(xAxis, yAxis) with exactly one (or none) of the axes laid out, with and without
+    a preceding makeFeasible().  Half of the cases are the general mixes of gen_layout_case with the mode replaced; half are directed:
+    in EACH dimension a jointly satisfiable system (alignments with offsets over disjoint node sets, separations along a random
+    witness order incl. equalities, a boundary) that the random initial positions violate - the dimension that is not laid out must
+    still be projected onto its constraints (setPosition moves both axes), nothing may be left violated and unreported."""
+    mode = [4, 5, 4, 5, 6, 7, 8, 9][idx % 8]
+    if rng.chance(1, 6):
+        mode += 16
+    if idx % 2 == 1:
+        c = gen_layout_case(rng.fork(), rng.below(8))
+        if m_base(c['mode']) == 3:
+            c['overlap'] = int(rng.chance(1, 2))
+        c['mode'] = mode
+        c['kind'] = 'single-axis/' + c['kind']
+        return c
+    n = rng.range(3, 9)
+    rects = gen_rects(rng, n)
+    ccs = []
+    for d in (0, 1):
+        order = rng.shuffle(list(range(n)))                    # witness: node order[k] sits at k*W, W large
+        rank = {v: k for k, v in enumerate(order)}
+        nodes = rng.shuffle(list(range(n)))
+        # alignments over consecutive witness ranks are not satisfiable with a strict order; use separations with gap <= 0 inside
+        # an aligned set: simpler - aligned sets take disjoint nodes and the separations only join DIFFERENT sets / free nodes through
+        # set representatives ordered by the witness
+        groups = []
+        for _ in range(rng.range(0, 2)):
+            k = rng.range(2, 3)
+            if len(nodes) >= k:
+                groups.append(nodes[:k]); nodes = nodes[k:]
+        for g in groups:
+            ccs.append({'code': 3, 'd': d, 'pos': rng.range(0, 200) * 16, 'fixed': False, 'sh': [[v, rng.range(-3, 3) * 40] for v in g]})
+        reps = sorted([g[0] for g in groups] + nodes, key=lambda v: rank[v])
+        for _ in range(rng.range(1, 3)):
+            if len(reps) >= 2:
+                i = rng.below(len(reps) - 1); j = rng.range(i + 1, len(reps) - 1)
+                ccs.append({'code': 1, 'd': d, 'l': reps[i], 'r': reps[j], 'g': rng.range(0, 60) * 16, 'e': rng.chance(1, 5)})
+        if rng.chance(1, 3) and reps:
+            v = reps[0]
+            ccs.append({'code': 4, 'd': d, 'pos': rng.range(0, 200) * 16, 'sh': [[v, -rng.choice([8, 24, 64])]]})
+    ccs = rng.shuffle(ccs)
+    edges = [[rng.below(v), v] for v in range(1, n) if rng.chance(5, 6)]
+    return {'n': n, 'rects': rects, 'ccs': ccs, 'edges': edges, 'ideal': rng.choice([40, 60, 100]) * 16, 'mode': mode, 'overlap': 0,
+            'neighbour': int(rng.chance(1, 6)), 'stream': 'sat', 'kind': 'single-axis/directed'}
+
+
 def feasible(nvars, cs):
     """exact feasibility of a system of separation constraints x_l + g <= x_r (== when eq): no positive cycle
     (Bellman-Ford longest paths over Fractions; the gaps are dyadic so Fraction(float) is exact)"""
@@ -523,7 +603,7 @@ def on_positive_closed_walk(nvars, all_edges, mine):
 
 def majorization_divergence_domain(c):
     """classifier: ConstrainedMajorizationLayout with setAvoidOverlaps and a FixedRelativeConstraint(fixedPosition=true)"""
-    return c['mode'] == 3 and c['overlap'] == 1 and any(cc['code'] == 7 and cc['fixedpos'] for cc in c['ccs'])
+    return m_base(c['mode']) == 3 and c['overlap'] == 1 and any(cc['code'] == 7 and cc['fixedpos'] for cc in c['ccs'])
 
 
 def refs_of(cc):
@@ -542,12 +622,14 @@ def parse_layout(line, n):
     R = []
     for i in range(n):
         R.append([float(x) for x in t[p:p + 4]]); p += 4
-    out = {'R': R, 'UX': [], 'UY': [], 'PG': {}, 'EXC': None}
+    out = {'R': R, 'UX': [], 'UY': [], 'PG': {}, 'EXC': None, 'TR': None}
     while p < len(t):
         if t[p] in ('UX', 'UY'):
             k = int(t[p + 1]); out[t[p]] = [int(x) for x in t[p + 2:p + 2 + k]]; p += 2 + k
         elif t[p] == 'PG':
             out['PG'][int(t[p + 1])] = [float(x) for x in t[p + 2:p + 6]]; p += 6
+        elif t[p] == 'TR':
+            out['TR'] = (int(t[p + 1]), int(t[p + 2]), int(t[p + 3]), int(t[p + 4]), t[p + 5]); p += 6
         elif t[p] == 'EXC':
             out['EXC'] = ' '.join(t[p + 1:]); break
         else:
@@ -563,10 +645,12 @@ def checker_line(case, R):
     return '%s | %d %d | %d %s' % (case_line(case), tol.numerator, tol.denominator, GRID, ' '.join(str(c) for c in cs))
 
 
-def layouts(res, rng, ncases, cpp, ml, corpus=True, nroll=0):
+def layouts(res, rng, ncases, cpp, ml, corpus=True, nroll=0, nsingle=0):
     cases = [gen_layout_case(rng.fork(), i) for i in range(ncases)]
     rr = rng.fork()
     cases += [gen_rollback_case(rr.fork(), i) for i in range(nroll)]
+    rs = rng.fork()
+    cases += [gen_single_axis_case(rs.fork(), i) for i in range(nsingle)]
     if corpus:
         for f in sorted(os.listdir(os.path.join(C.VERIF, 'corpus'))):
             if f.startswith('c07_layout_') and f.endswith('.json'):
@@ -608,7 +692,7 @@ def layouts(res, rng, ncases, cpp, ml, corpus=True, nroll=0):
                 v = {'what': 'layout call did not return within the CPU-time limit (6 s; typical: milliseconds) - non-termination in ' + phase,
                      'phase': phase, 'case': c, 'replay': 'echo "%s" | <c07_cc harness> layout 6' % lines[i]}
                 # classifier for the known non-termination of makeFeasible(): overlap avoidance on and the loop is in makeFeasible
-                if phase == 'makeFeasible' and c['overlap'] == 1 and c['mode'] in (0, 2):
+                if phase == 'makeFeasible' and c['overlap'] == 1 and m_mf(c['mode']):
                     v['fingerprint'] = 'makefeasible_hang_unsat_nonoverlap'
                 # classifier: the majorization divergence (coordinates run away, the stress never converges) shows as a run() that
                 # does not return, in exactly the domain of that finding
@@ -626,7 +710,7 @@ def layouts(res, rng, ncases, cpp, ml, corpus=True, nroll=0):
             v = {'what': 'layout threw: the postcondition of C07 is not delivered', 'exception': r['EXC'], 'case': c,
                  'replay': 'echo "%s" | <c07_cc harness> layout' % lines[i]}
             # classifier: the char* that only IncSolver::satisfy's final scan throws (solve_VPSC.cpp:326), out of the majorization layout
-            if r['EXC'].startswith('char*') and c['mode'] == 3:
+            if r['EXC'].startswith('char*') and m_base(c['mode']) == 3:
                 v['fingerprint'] = 'vpsc_satisfy_throws_charptr'
             # classifier: coordinates run away (assertion on the rectangle width fails at huge coordinates) in the combination below
             if majorization_divergence_domain(c) and ('fabs(width()-w)<1e-9' in r['EXC'] or 'fabs(height()-h)<1e-9' in r['EXC']):
@@ -659,6 +743,31 @@ def layouts(res, rng, ncases, cpp, ml, corpus=True, nroll=0):
         if r['UX'] or r['UY']:
             stats['reported_unsat'] += 1
         chk_lines.append(checker_line(c, r['R'])); chk_idx.append(i)
+    # ---- control-flow correspondence: the projections run() performed (probe) vs the Coq trace model run_trace for the same flags
+    tr_idx = [i for i, r in enumerate(parsed) if r is not None and r.get('TR') is not None and not r['EXC']]
+    trace_viols = []
+    if tr_idx:
+        rct, outt, errt = run_lines(ml, ['trace'], ['%d %d %d %d' % parsed[i]['TR'][:4] for i in tr_idx])
+        if rct != 0 or len(outt) < len(tr_idx):
+            viols.append({'what': 'extracted trace model failed to run', 'rc': rct, 'stderr': errt[-1500:], 'machinery': True})
+        else:
+            stats['trace_runs_compared'] = len(tr_idx)
+            stats['trace_by_flags'] = {}
+            for k, i in enumerate(tr_idx):
+                rk, xa, ya, iters, got = parsed[i]['TR']
+                key = 'rk=%d x=%d y=%d' % (rk, xa, ya)
+                stats['trace_by_flags'][key] = stats['trace_by_flags'].get(key, 0) + 1
+                exp = outt[k].split()
+                if exp[0] != got:
+                    trace_viols.append({'what': 'ConstrainedFDLayout::run(%s,%s) does not perform the projections of the control-flow model '
+                                                '(Cola/CompoundCsModel.v run_trace; theorems driver_last_step_is_projection / '
+                                                'C07_single_axis_run_ends_with_both_projections rest on it): x / y = one solve of that dimension, '
+                                                'in program order' % ('true' if xa else 'false', 'true' if ya else 'false'),
+                                        'layout_calls': mode_name(cases[i]['mode']), 'iterations': iters,
+                                        'implementation_projections': got[:120] + ('...' if len(got) > 120 else ''),
+                                        'model_projections': exp[0][:120] + ('...' if len(exp[0]) > 120 else ''),
+                                        'model_last_write_X_Y': exp[1:3], 'trace_diff': True, 'case': cases[i],
+                                        'replay': 'echo "%s" | <c07_cc harness> layout   # field TR <rk> <xAxis> <yAxis> <iterations> <projections>' % lines[i]})
     if chk_lines:
         rc2, out2, err2 = run_lines(ml, ['check'], chk_lines)
         # the same verified checker on the INITIAL centres (which constraints held before the call)
@@ -693,19 +802,21 @@ def layouts(res, rng, ncases, cpp, ml, corpus=True, nroll=0):
                         if excluded:
                             stats['cc_excluded_reported'] += 1
                             continue
-                        if c['mode'] == 2 and c['feasible'][d] is not True:
+                        if m_mf_only(c['mode']) and c['feasible'][d] is not True:
                             # makeFeasible() alone has no channel to report what it dropped: domain = jointly satisfiable systems
                             stats['cc_skipped_mf_only_infeasible'] = stats.get('cc_skipped_mf_only_infeasible', 0) + 1
                             continue
                         stats['cc_evaluated'] += 1
                         stats['by_type'][tname] = stats['by_type'].get(tname, 0) + 1
                         held = (before[j][d] == '1')
-                        if c['mode'] == 2 and held:
+                        if m_mf_only(c['mode']) and held:
                             stats['cc_held_before_makefeasible'] = stats.get('cc_held_before_makefeasible', 0) + 1
                         if flags[j][d] != '1':
                             v = {'what': ('compound constraint that HELD on the initial positions (jointly satisfiable system) is violated by more than 1e-4 '
-                                          'after makeFeasible(), nothing reported' if (c['mode'] == 2 and held) else
+                                          'after makeFeasible(), nothing reported' if (m_mf_only(c['mode']) and held) else
                                           'compound constraint violated by more than 1e-4 in the final layout and not reported unsatisfiable'),
+                                 'layout_calls': mode_name(c['mode']),
+                                 'dimension_laid_out_by_run': (None if not m_run(c['mode']) else bool(m_axes(c['mode'])[d])),
                                  'held_on_initial_positions': held,
                                  'initial_centres': [[(q[0] + q[1]) / 32.0, (q[2] + q[3]) / 32.0] for q in c['rects']],
                                  'constraint_index': j, 'constraint': cc, 'type': tname, 'dim': 'XY'[d],
@@ -717,7 +828,7 @@ def layouts(res, rng, ncases, cpp, ml, corpus=True, nroll=0):
                             # gap) of the separation constraints generated for that dimension - exact oracle - and at least one constraint
                             # IS reported unsatisfiable in that dimension (the solver dropped another member of the cycle where it is reported)
                             rep_any = (r['UX'] if d == 0 else r['UY'])
-                            if c['mode'] in (0, 1) and len(rep_any) > 0:
+                            if m_run(c['mode']) and len(rep_any) > 0:
                                 ed, nvars = cc_edges(c, d)
                                 if ed is not None:
                                     alle = [e for es in ed[0] for e in es]
@@ -734,11 +845,11 @@ def layouts(res, rng, ncases, cpp, ml, corpus=True, nroll=0):
                             # satisfiable system such a cycle contains an equality.  A violated constraint of a system WITHOUT an equality
                             # on a cycle (e.g. a forest of equalities) is never this finding.
                             v['equality_on_cycle_in_dim'] = c.get('eqoncycle', [None, None])[d]
-                            if c['mode'] == 2 and c['feasible'][d] is True and c.get('eqoncycle', [None, None])[d]:
+                            if m_mf_only(c['mode']) and c['feasible'][d] is True and c.get('eqoncycle', [None, None])[d]:
                                 v['fingerprint'] = 'makefeasible_rejects_satisfiable_equality:' + \
                                                    ('cycle' if c.get('eqcycle', [None, None])[d] else 'nocycle')
                             viols.append(v)
-                    if cc['code'] == 8 and j in r['PG'] and c['mode'] in (0, 1):
+                    if cc['code'] == 8 and j in r['PG'] and m_run(c['mode']):
                         # soft page boundary (not one of the property's listed types; extra check, ConstrainedFDLayout::run only, where the
                         # last write is a projection): every rectangle inside the *actual* margins the constraint reports
                         xl, xr, yl, yr = r['PG'][j]
@@ -750,7 +861,8 @@ def layouts(res, rng, ncases, cpp, ml, corpus=True, nroll=0):
                                     viols.append({'what': 'rectangle outside the actual page margins reported by PageBoundaryConstraints', 'constraint_index': j,
                                                   'shape': s, 'margins': r['PG'][j], 'centre': [x, y], 'case': c,
                                                   'replay': 'echo "%s" | <c07_cc harness> layout' % lines[i]})
-    return cases, viols, stats
+    stats['trace_disagreements'] = len(trace_viols)
+    return cases, viols + trace_viols, stats
 
 
 def run(tier):
@@ -759,7 +871,12 @@ def run(tier):
     info = C.prove(res, PID)
     res.assumptions = [
         'the hypothesis of C07_projection_establishes ("every generated separation constraint holds to eps on the projection\'s output") is property C01; it is not re-proved here',
-        'the control-flow trace of ConstrainedFDLayout::run (run_trace) is a hand model of colafd.cpp:286-380, 1063-1161: no topology addon, no preIteration callback, the convergence test does not write X/Y, at least one iteration',
+        'the control-flow trace of ConstrainedFDLayout::run (run_trace) is a hand model of colafd.cpp:286-380, 1063-1161: no topology addon, no preIteration callback, the convergence test does not write X/Y, at least one iteration; '
+        'its projection sub-sequence (one entry per IncSolver solve: moveTo and applyForcesAndConstraints) is compared on every run()-mode V-run, for all four (xAxis, yAxis) combinations and both '
+        'settings of the private rungekutta switch, with what a constraint-free probe CompoundConstraint observes through the virtual updatePosition(dim) (called once after each solve); '
+        'the writes other than projections (descent, blend, random displacement) are not observed',
+        'single-axis runs run(true,false) / run(false,true) / run(false,false), with and without a preceding makeFeasible(): calibrated on the unchanged tree, setPosition() projects BOTH axes before '
+        'every descent evaluation and after the last step whatever the flags, so the oracle is the same as for run(): every user constraint of BOTH dimensions holds to 1e-4 or is reported',
         'vpsc::Rectangle borders are 0 outside makeFeasible; binary64 arithmetic is exact on the dyadic parameters of the correspondence (validated by it)',
         'V-runs: final centres are rounded to 2^-20 before the exact checker, whose tolerance is 1e-4 + 4*2^-20; makeFeasible()-only runs are checked only when the '
         'user system is jointly satisfiable (exact Bellman-Ford oracle on the model\'s constraints) because makeFeasible has no reporting channel',
@@ -771,14 +888,16 @@ def run(tier):
     ncorr = 1500 if tier == 'quick' else 12000
     nlay = 500 if tier == 'quick' else 4000
     nroll = 300 if tier == 'quick' else 2500
+    nsingle = 400 if tier == 'quick' else 3000
     cases, diffs, hist, ntriv, samples = correspondence(res, rng.fork(), ncorr, cpp, ml)
-    lcases, viols, stats = layouts(res, rng.fork(), nlay, cpp, ml, nroll=nroll)
+    lcases, viols, stats = layouts(res, rng.fork(), nlay, cpp, ml, nroll=nroll, nsingle=nsingle)
     # ---- decide
     real = 0
     for v in viols:
         if v.get('machinery'):
             continue
         fp = v.pop('fingerprint', None)
+        v.pop('trace_diff', None)
         if res.violation(v, fingerprint=fp):
             real += 1
         if len(res.violations) >= 8:
@@ -833,7 +952,10 @@ META = {
                 'compound constraint type) that is compared exactly with the compiled library on every run: for each type the generated separation '
                 'constraints are sound and complete for its declarative meaning on the rectangle centres (exists auxiliary values <-> meaning, over Q); '
                 'if a projection satisfies the generated constraints to eps (property C01, hypothesis) every compound constraint holds to 3*eps; in the '
-                'control-flow model of ConstrainedFDLayout::run the last write to X and to Y is a projection output and X constraints do not read Y. '
+                'control-flow model of ConstrainedFDLayout::run the last write to X and to Y is a projection output and X constraints do not read Y, for every '
+                '(xAxis, yAxis) flag combination: the trace ends with the projection of X then of Y also in single-axis runs, the axis that is not laid out is written '
+                'only by projections and the random displacement (C07_single_axis_*), closed form of the projection sequence (C07_run_projections, compared with the '
+                'compiled run() on every layout), and the variant that moves only the laid-out axes is refuted (C07_axes_only_variant_*). '
                 'PARTIAL: makeFeasible()\'s search, the solver delivering the hypothesis, the reporting of dropped constraints and '
                 'ConstrainedMajorizationLayout are only validated on real runs by the extracted verified checker (cc_holdsb, proved equivalent to the meaning), '
                 'including a directed family for makeFeasible\'s rollback path (overlap avoidance + rectangles tied by user equalities in both dimensions: '
